@@ -39,7 +39,7 @@ func main() {
 			"channels / select / cgo introduced by an edit are not schedulable by simrt (the run then trips the watchdog: exit 2)",
 		},
 		PerRunTimeout: 60 * time.Second,
-		WorkerEnv:     []string{"GORACE=halt_on_error=0 exitcode=0 atexit_sleep_ms=0 suppress_equal_stacks=0 suppress_equal_addresses=0 log_path=" + dir + "/race"},
+		WorkerEnv:     []string{"GORACE=halt_on_error=0 exitcode=0 atexit_sleep_ms=0 suppress_equal_stacks=0 suppress_equal_addresses=0 history_size=7 log_path=" + dir + "/race"},
 		ShrinkMax:     map[string]int{"C11": 60},
 		Extra:         taskprops.Extra,
 	})
